@@ -33,7 +33,7 @@ ASSUMPTIONS = [
     "(monitor name in detail.monitor): (1) regime:C08/rhumb-exact/edge-with-nonzero-latitude-below-1e-290deg (Rhumb exact=true, an edge end with 0<|lat|<1e-290 deg); "
     "(2) regime:C08/rhumb-exact/prolate-ellipsoid-edge-near-equator-same-side (Rhumb exact=true, f<0, an edge with different latitudes on one side of the equator whose predicted accuracy loss "
     "eps*length/|lat_min| exceeds 1/20 of its tolerance; always for latitude 0); (3) regime:C08/geod-exact/strongly-prolate-ellipsoid-near-equatorial-nearly-antipodal-inverse-edge (GeodesicExact or "
-    "Geodesic(exact=true), f<-0.2, an inverse edge with both latitudes within 1e-3 deg of the equator, not both 0, and longitudes more than 170 deg apart); (4) regime:C08/geod-exact/strongly-oblate-ellipsoid-inverse-edge-within-1e-8deg-of-equator "
+    "Geodesic(exact=true), f<-0.2, an inverse edge with both latitudes within 1e-3 deg of the equator, not both 0, and longitudes more than 120 deg apart); (4) regime:C08/geod-exact/strongly-oblate-ellipsoid-inverse-edge-within-1e-8deg-of-equator "
     "(f>0.5, an inverse edge with both latitudes within 1e-8 deg of the equator, not both 0); outside them the normal keys apply; history:/sentinel: monitors are never re-keyed",
     "rhumb AddEdge/TestEdge from a pole vertex and rhumb courses that come within 1e-7 deg (rectifying latitude) of a pole are not issued (documented NaN longitude, property C09)",
 ]
